@@ -24,6 +24,7 @@ GROUP = dict(
         dict(id='C08.wait_for_slow', enforce='FC_wait_for_slow', loops=True, timeout=600),
         dict(id='C08.get', enforce='FC_get', replace=['FC_wait_slow']),
         dict(id='C08.promise.set_value', enforce='Promise_set_value__int', replace=['FC_set_value__int_void']),
+        dict(id='C08.set_value', enforce='FC_set_value__int_void', loops=True, backend='cadical', defines=['VF_SETVAL_CONTRACT 1'], covers=['g_cbn > 5 && g_waiters0 > 0', 'g_cbn == 0']),
         dict(id='C08.set_value.bounded', harness='h_set_value', unwind=5, bounded='<= 3 callbacks registered before set_value; any waiter count; unwind 5'),
     ],
 )
